@@ -9,7 +9,7 @@ typedef struct Self { const void* m_valueExpr; int m_level; } Self;
 typedef struct Ctx StylesheetExecutionContext; typedef struct XalanDOMString XalanDOMString; typedef struct XalanNode XalanNode;
 typedef struct CountersTable CountersTable; typedef struct NodeList NodeList;
 enum { eSingle, eMultiple, eAny };
-double g_value; size_t g_nancestors; CountType g_count; int g_done;
+double g_value; size_t g_nancestors; CountType g_count; int g_done; bool g_rounded; double g_round_in, g_round_out;
 enum { D_NONE, D_PLAIN_NUMBER, D_FORMAT_ONE, D_FORMAT_LIST };
 
 XalanNode* xv_current_node(StylesheetExecutionContext* e) __CPROVER_requires(1) __CPROVER_assigns() __CPROVER_ensures(__CPROVER_return_value != 0) ;
@@ -18,12 +18,19 @@ __CPROVER_requires(__CPROVER_w_ok(out, sizeof(double))) __CPROVER_assigns(*out) 
 /* DoubleSupport: contracts proved in c02_dsarith / c18_round */
 bool DoubleSupport_lessThan(double a, double b) __CPROVER_requires(1) __CPROVER_assigns() __CPROVER_ensures(__CPROVER_return_value == (a < b)) ;
 bool DoubleSupport_greaterThanOrEqual(double a, double b) __CPROVER_requires(1) __CPROVER_assigns() __CPROVER_ensures(__CPROVER_return_value == (a >= b)) ;
-double DoubleSupport_round(double x) __CPROVER_requires(1) __CPROVER_assigns()
+double DoubleSupport_round(double x) __CPROVER_requires(1) __CPROVER_assigns(g_rounded, g_round_in, g_round_out)
 __CPROVER_ensures(XV_FINITE(x) ==> (XV_FINITE(__CPROVER_return_value) && __CPROVER_return_value - 0.5 <= x && x <= __CPROVER_return_value + 0.5))
-__CPROVER_ensures(XV_FINITE(x) && XV_ABS(x) >= XV_TWO52 ==> __CPROVER_return_value == x) ;
+__CPROVER_ensures(XV_FINITE(x) && XV_ABS(x) >= XV_TWO52 ==> __CPROVER_return_value == x)
+__CPROVER_ensures(g_rounded == true && XV_SAME(g_round_in, x) && XV_SAME(g_round_out, __CPROVER_return_value)) ;
+/* any other rounding routine of libm: not the XPath round() */
+double xv_libm_round_like(double x) __CPROVER_requires(1) __CPROVER_assigns() __CPROVER_ensures(1) ;
 void xv_NumberToDOMString(double v, XalanDOMString* r) __CPROVER_requires(g_done == D_NONE) __CPROVER_assigns(g_done) __CPROVER_ensures(g_done == D_PLAIN_NUMBER) ;
 void xv_formatNumberList(const Self* self, StylesheetExecutionContext* e, const CountType* list, size_t n, XalanDOMString* r)
-__CPROVER_requires(g_done == D_NONE && n == 1 && __CPROVER_r_ok(list, sizeof(CountType))) __CPROVER_assigns(g_done) __CPROVER_ensures(g_done == D_FORMAT_ONE) ;
+__CPROVER_requires(g_done == D_NONE && n == 1 && __CPROVER_r_ok(list, sizeof(CountType)))
+__CPROVER_requires(/* xsl:number value=: the number formatted is round(value) as XPath 4.4 defines it (DoubleSupport::round, unit c18_round), ties towards +infinity */
+    self->m_valueExpr != 0 ==> (g_rounded == true && XV_SAME(g_round_in, g_value) && list[0] == (CountType)g_round_out))
+__CPROVER_requires(/* level=any: the count the counters table gives for the node */ self->m_valueExpr == 0 ==> list[0] == g_count)
+__CPROVER_assigns(g_done) __CPROVER_ensures(g_done == D_FORMAT_ONE) ;
 CountersTable* xv_counters(StylesheetExecutionContext* e) __CPROVER_requires(1) __CPROVER_assigns() __CPROVER_ensures(1) ;
 CountType xv_countNode(CountersTable* t, StylesheetExecutionContext* e, const Self* self, XalanNode* n) __CPROVER_requires(1) __CPROVER_assigns() __CPROVER_ensures(__CPROVER_return_value == g_count) ;
 NodeList* xv_borrow_list(StylesheetExecutionContext* e) __CPROVER_requires(1) __CPROVER_assigns() __CPROVER_ensures(1) ;
@@ -41,7 +48,7 @@ __CPROVER_ensures(__CPROVER_is_fresh(__CPROVER_return_value, n * sizeof(CountTyp
 @@FN getCountString@@
 void h_getCountString(void)
 {
-    double v; size_t n; CountType c; g_value = v; g_nancestors = n; g_count = c; g_done = D_NONE;
+    double v; size_t n; CountType c; g_value = v; g_nancestors = n; g_count = c; g_done = D_NONE; g_rounded = false;
     __CPROVER_assume(n <= ((size_t)1 << 40));
     Self* s; getCountString(s, 0, 0);
 }
@@ -54,7 +61,7 @@ UNIT = Unit(
         Fn(EN, r'^ElemNumber::getCountString\(\s*StylesheetExecutionContext&\s+executionContext,\s*XalanDOMString&\s+theResult\) const', 'getCountString',
            'void getCountString(const Self* self, StylesheetExecutionContext* executionContext, XalanDOMString* theResult)',
            head_expect=r'^void ElemNumber::getCountString\( StylesheetExecutionContext& executionContext, XalanDOMString& theResult\) const$',
-           rules=['SCOPE', ('FCASTS', ['CountType']),
+           rules=[(r'(?:std::)?\b(?:nearbyint|rint|lround|llround|floor|ceil|trunc)\(', 'xv_libm_round_like(', (0, 2)), 'SCOPE', ('FCASTS', ['CountType']),
                   (r'executionContext\.getCurrentNode\(\)', 'xv_current_node(executionContext)', 1),
                   (r'\bm_(valueExpr|level)\b', r'self->m_\1', None),
                   (r'self->m_valueExpr->execute\(\*this, executionContext, theValue\);', 'xv_value_execute(self->m_valueExpr, self, executionContext, &theValue);', 1),
@@ -69,8 +76,8 @@ UNIT = Unit(
                   (r'CountTypeArrayType\s+numberList\(executionContext\.getMemoryManager\(\)\);\s*numberList\.resize\(lastIndex, 0\);', 'CountType* numberList = xv_heap_array(lastIndex);', 1),
                   (r'&\*numberList\.begin\(\)', 'numberList', 1),
                   (r'getCountString\(\s*executionContext,\s*\*ancestors\.get\(\),\s*ctable,', 'xv_getCountString_list(self, executionContext, ancestors, ctable,', 2)],
-           contract='''__CPROVER_requires(__CPROVER_is_fresh(self, sizeof(*self)) && g_done == D_NONE && (self->m_level == eSingle || self->m_level == eMultiple || self->m_level == eAny))
-__CPROVER_assigns(g_done)
+           contract='''__CPROVER_requires(__CPROVER_is_fresh(self, sizeof(*self)) && g_done == D_NONE && g_rounded == false && (self->m_level == eSingle || self->m_level == eMultiple || self->m_level == eAny))
+__CPROVER_assigns(g_done, g_rounded, g_round_in, g_round_out)
 __CPROVER_ensures(/* xsl:number: at most one formatting action */ g_done == D_NONE || g_done == D_PLAIN_NUMBER || g_done == D_FORMAT_ONE || g_done == D_FORMAT_LIST)''',
            nloops=0),
     ],
@@ -78,9 +85,10 @@ __CPROVER_ensures(/* xsl:number: at most one formatting action */ g_done == D_NO
     jobs=[Job('getCountString', 'h_getCountString', enforce=['getCountString'],
               replace=['xv_current_node', 'xv_value_execute', 'DoubleSupport_lessThan', 'DoubleSupport_greaterThanOrEqual', 'DoubleSupport_round', 'xv_NumberToDOMString',
                        'xv_formatNumberList', 'xv_counters', 'xv_countNode', 'xv_borrow_list', 'xv_getMatchingAncestors', 'xv_list_length',
-                       'xv_getCountString_list', 'xv_heap_array'],
+                       'xv_getCountString_list', 'xv_heap_array', 'xv_libm_round_like'],
               flags=['--conversion-check'], reach=['entry:getCountString'], timeout=300)],
     mutants=[
+        Mutant('value_rounded_half_even', EN, r'CountType\(DoubleSupport::round\(theValue\)\)', 'CountType(std::nearbyint(theValue))', expect='round(value)'),
         Mutant('threshold_sizeof', EN, r'if \(lastIndex < theStackArrayThreshold\)', 'if (lastIndex < theStackArrayThreshold * sizeof(CountType))', expect='room for one count'),
     ],
     mechanisms=['number list computation'],
